@@ -21,6 +21,8 @@ def main():
             continue
         mp = os.path.join(d, "meta.json")
         meta = json.load(open(mp))
+        if meta.get("superseded"):
+            print(name, "superseded:", meta["superseded"][:80]); continue
         checks = list((meta.get("our_checks") or {}).keys()) or [meta["property"]]
         r = subprocess.run(["git", "-C", REPO, "apply", os.path.join(d, "patch.diff")], capture_output=True, text=True)
         if r.returncode:
